@@ -54,14 +54,29 @@ def rule_read(R):
     R.ob("read/commit-adds", okc, "PacketReader::commit advances read_bytes by exactly the committed count", where=commit.span)
     # zero read = end of stream
     okz = False
+    from .. import paths as _paths
     for bb in code.switches:
+        if bb not in code.reachable:
+            continue
         si = code.switch_info(bb)
         s = peel(si["subject"])
-        if s[0] == "bin" and s[1] == "Eq" and derived_from(s, rd.bb) and any(x[0] == "const" and x[2] == 0 for x in (s[2], s[3])) \
-                and si["edges"].get(True) is not None:
-            vals = [code.rvalue_term(s2["rv"]) for x in code.reach([si["edges"][True]], avoid=[si["edges"].get(False)]) for s2 in code.blocks[x]["stmts"]
-                    if s2["k"] == "assign" and s2["dst"]["l"] == 0]
-            okz = bool(vals) and all("Disconnected" in show(v) for v in vals)
+        zt = None
+        if s[0] == "bin" and s[1] == "Eq" and derived_from(s, rd.bb) and any(x[0] == "const" and x[2] == 0 for x in (s[2], s[3])):
+            zt = si["edges"].get(True)
+        elif s[0] == "bin" and s[1] == "Ne" and derived_from(s, rd.bb) and any(x[0] == "const" and x[2] == 0 for x in (s[2], s[3])):
+            zt = si["edges"].get(False)
+        elif derived_from(s, rd.bb) and any(k_ == 0 and not isinstance(k_, bool) for k_ in si["edges"]):
+            zt = [t_ for k_, t_ in si["edges"].items() if k_ == 0 and not isinstance(k_, bool)][0]   # `match count { 0 => .. }`
+        if zt is None:
+            continue
+        vals = []
+        commits = False
+        for lf in _paths.explore(code, zt, lambda t_: False, lambda b_, x_: False, max_paths=500):
+            if lf["kind"] == "return":
+                vals.append(_paths.value_on_path(code, [bb] + lf["path"], 0))
+            if any(x in code.calls and outq.targets_fn(f, code.calls[x], commit) for x in lf["path"]):
+                commits = True
+        okz = bool(vals) and all(v is not None and "Disconnected" in show(v) for v in vals) and not commits
     R.ob("read/zero-is-eof", okz, "a read of zero bytes is reported as Disconnected (end of stream), never committed", where=fp.span)
     pa = roles.method(f, READER, "packet_available")
     from .. import optsem
